@@ -15,10 +15,12 @@
   rangestep : every  range(n) / range(a, b)  written  range(0, n, 1) / range(a, b, 1)
   negcmp    : every two-operand integer comparison in an if / while test  a < b  written  not a >= b  (==  as  not !=, and so on)
   tempcond  : every  if <comparison or and/or>: ...  (not an elif) written  _cN = <test>; if _cN: ...
+  nowalrus  : every  while (v := e) is not None: B  written  while True: v = e; if v is None: break; B
+  elseafter : every  if c: ...; return/continue/break/raise  (no else) followed by statements S  written  if c: ... else: S
   chainsub  : every read  x[i, j]  whose indices are integer constants, constant names or range-loop variables written  x[i][j]"""
 import ast
 
-MODES = ["roundtrip", "rename", "params", "flipcmp", "augassign", "ifelse", "range0", "tempret", "chain", "commute", "nestand", "earlycont", "ifexp", "rangestep", "chainsub", "negcmp", "tempcond"]
+MODES = ["roundtrip", "rename", "params", "flipcmp", "augassign", "ifelse", "range0", "tempret", "chain", "commute", "nestand", "earlycont", "ifexp", "rangestep", "chainsub", "negcmp", "tempcond", "nowalrus", "elseafter"]
 
 class Renamer(ast.NodeTransformer):
     def __init__(self, mode): self.mode = mode
@@ -234,6 +236,36 @@ class TempCond(ast.NodeTransformer):
             h.body = self._block(h.body)
         return node
 
+class NoWalrus(ast.NodeTransformer):
+    def visit_While(self, n):
+        self.generic_visit(n)
+        t = n.test
+        if isinstance(t, ast.Compare) and len(t.ops) == 1 and isinstance(t.ops[0], ast.IsNot) and isinstance(t.left, ast.NamedExpr) \
+                and isinstance(t.comparators[0], ast.Constant) and t.comparators[0].value is None and not n.orelse:
+            v = t.left.target
+            pre = [ast.copy_location(ast.Assign(targets=[ast.Name(v.id, ast.Store())], value=t.left.value, lineno=n.lineno), n),
+                   ast.copy_location(ast.If(test=ast.Compare(left=ast.Name(v.id, ast.Load()), ops=[ast.Is()], comparators=[ast.Constant(None)]), body=[ast.Break()], orelse=[]), n)]
+            return ast.copy_location(ast.While(test=ast.Constant(True), body=pre + n.body, orelse=[]), n)
+        return n
+
+class ElseAfter(ast.NodeTransformer):
+    def _block(self, stmts):
+        out = []
+        for k, st in enumerate(stmts):
+            if isinstance(st, ast.If) and not st.orelse and st.body and isinstance(st.body[-1], (ast.Return, ast.Continue, ast.Break, ast.Raise)) and k + 1 < len(stmts):
+                st.orelse = self._block(stmts[k + 1:])
+                out.append(st)
+                return out
+            out.append(st)
+        return out
+    def generic_visit(self, node):
+        super().generic_visit(node)
+        for fld in ("body", "orelse", "finalbody"):
+            v = getattr(node, fld, None)
+            if isinstance(v, list) and v and isinstance(v[0], ast.stmt):
+                setattr(node, fld, self._block(v))
+        return node
+
 def transform(src, mode):
     tree = ast.parse(src)
     if mode in ("rename", "params"):
@@ -262,6 +294,10 @@ def transform(src, mode):
         tree = RangeStep().visit(tree)
     elif mode == "chainsub":
         tree = ChainSub().visit(tree)
+    elif mode == "nowalrus":
+        tree = NoWalrus().visit(tree)
+    elif mode == "elseafter":
+        tree = ElseAfter().visit(tree)
     elif mode == "negcmp":
         tree = NegCmp().visit(tree)
     elif mode == "tempcond":
